@@ -128,7 +128,7 @@ th!(c13_q_requests_only_after_delivery, 14, {
 });
 
 //# funcs=SendTransaction::process_pdu(Finished); bound=Finished with 0..=2 responses, any codes; the sending user's indication carries them; stubs=S1,S2,S3
-th!(c13_q_sender_reports_responses, 10, {
+th!(#[kani::stub(<std::hash::DefaultHasher as std::hash::Hasher>::finish, crate::c07::hasher_finish_stub)] c13_t_sender_reports_responses, 5, {
     let ch = chans();
     verif::set_now(Duration::from_secs(NOW));
     let mut p = send_parts(config(A), metadata(false, 0, false, ChecksumType::Modular, requests(2)), &ch);
